@@ -5,7 +5,7 @@ use crate::dirstate::Paths;
 use crate::script::{Event, Session};
 use serde::{Deserialize, Serialize};
 use std::io::Read;
-use std::os::unix::process::{CommandExt, ExitStatusExt};
+use std::os::unix::process::ExitStatusExt;
 use std::path::{Path, PathBuf};
 use std::process::{Command, Stdio};
 use std::time::{Duration, Instant};
@@ -94,20 +94,30 @@ impl Launcher {
             .stdin(Stdio::null())
             .stdout(Stdio::piped())
             .stderr(Stdio::piped());
+        let _ = (cpus, rotate);
+        cmd
+    }
+
+    /// Spawn `cmd` so that the child starts with an affinity mask of `cpus` CPUs. The mask is put on
+    /// the calling thread for the duration of the spawn (a child inherits the mask of the thread that
+    /// creates it); this avoids a `pre_exec` hook, which would force a full fork() of the simulator.
+    fn spawn_with_affinity(&self, cmd: &mut Command, cpus: usize, rotate: usize) -> std::io::Result<std::process::Child> {
         let n = self.allowed.len();
         let want = cpus.clamp(1, n);
-        let mask: Vec<usize> = (0..want).map(|i| self.allowed[(rotate + i) % n]).collect();
         unsafe {
-            cmd.pre_exec(move || {
-                let mut set: libc::cpu_set_t = std::mem::zeroed();
-                for c in &mask {
-                    libc::CPU_SET(*c, &mut set);
-                }
-                libc::sched_setaffinity(0, std::mem::size_of::<libc::cpu_set_t>(), &set);
-                Ok(())
-            });
+            let mut old: libc::cpu_set_t = std::mem::zeroed();
+            let have_old = libc::sched_getaffinity(0, std::mem::size_of::<libc::cpu_set_t>(), &mut old) == 0;
+            let mut set: libc::cpu_set_t = std::mem::zeroed();
+            for i in 0..want {
+                libc::CPU_SET(self.allowed[(rotate + i) % n], &mut set);
+            }
+            libc::sched_setaffinity(0, std::mem::size_of::<libc::cpu_set_t>(), &set);
+            let r = cmd.spawn();
+            if have_old {
+                libc::sched_setaffinity(0, std::mem::size_of::<libc::cpu_set_t>(), &old);
+            }
+            r
         }
-        cmd
     }
 
     fn wait(&self, mut child: std::process::Child) -> (Exit, String, String) {
@@ -178,7 +188,7 @@ impl Launcher {
             }
         };
         cmd.arg(&script).arg(&log);
-        let child = match cmd.spawn() {
+        let child = match self.spawn_with_affinity(&mut cmd, session.cpus, rotate) {
             Ok(c) => c,
             Err(e) => return ChildOut { exit: Exit::SpawnFailed { why: e.to_string() }, events: vec![], stdout: String::new(), stderr: String::new() },
         };
@@ -221,7 +231,7 @@ impl Launcher {
         for (k, v) in extra_env {
             cmd.env(k, v);
         }
-        let child = match cmd.spawn() {
+        let child = match self.spawn_with_affinity(&mut cmd, 1, 0) {
             Ok(c) => c,
             Err(e) => return ChildOut { exit: Exit::SpawnFailed { why: e.to_string() }, events: vec![], stdout: String::new(), stderr: String::new() },
         };
